@@ -301,10 +301,76 @@ func firstGapiErrorCode(b *ssa.BasicBlock) (int64, token.Pos, bool) {
 				}
 				return code, in.Pos(), true
 			}
+			// a wrapper that always answers through gapiError (`g.respondErr(w, err)`, `g.respondNotFound(w, what)`)
+			if ci := core.Call(in); ci != nil {
+				if code, ok := wrapperGapiCode(ci, 0); ok {
+					return code, in.Pos(), true
+				}
+			}
 		}
 		queue = append(queue, x.Succs...)
 	}
 	return 0, token.NoPos, false
+}
+
+// wrapperGapiCode: ci calls a function of the emulator that takes the response writer and
+// answers through gapiError on every path (the call's block dominates every return); the
+// status is the wrapper's constant, the caller's constant argument when the wrapper passes a
+// parameter on, or -1 (dynamic).
+func wrapperGapiCode(ci *core.CallInfo, depth int) (int64, bool) {
+	h := ci.Static
+	if h == nil || h.Blocks == nil || depth > 2 || core.PkgPathOf(h) != core.PkgGcsemu || !hasWriterParam(h) || len(h.Params) != len(ci.Common.Args) {
+		return 0, false
+	}
+	for _, b := range h.Blocks {
+		for _, in := range b.Instrs {
+			inner := core.Call(in)
+			if inner == nil {
+				continue
+			}
+			var code int64
+			found := false
+			if inner.IsFunc(core.PkgGcsemu, "(*GcsEmu).gapiError") {
+				found = true
+				arg := inner.Common.Args[2]
+				if k, ok := core.ConstInt(arg); ok {
+					code = k
+				} else if par, isP := core.Strip(arg).(*ssa.Parameter); isP {
+					code = -1
+					for i, hp := range h.Params {
+						if hp == par {
+							if k, ok := core.ConstInt(ci.Common.Args[i]); ok {
+								code = k
+							}
+						}
+					}
+				} else {
+					code = -1
+				}
+			} else if k, ok := wrapperGapiCode(inner, depth+1); ok && k != -2 {
+				found, code = true, k
+				if k == -1 {
+					code = -1
+				}
+			}
+			if !found {
+				continue
+			}
+			always := true
+			for _, rb := range h.Blocks {
+				if len(rb.Instrs) == 0 {
+					continue
+				}
+				if _, isRet := rb.Instrs[len(rb.Instrs)-1].(*ssa.Return); isRet && !b.Dominates(rb) {
+					always = false
+				}
+			}
+			if always {
+				return code, true
+			}
+		}
+	}
+	return 0, false
 }
 
 // readsFromMemory: the reader is (a bufio wrapper of) bytes.NewReader / strings.NewReader
